@@ -59,3 +59,13 @@ CHECKS['C16'] = dict(level='proof',
         'gcc/clang on Linux and are analysed together with INTRINSICS. Trusted: clang 14 constant evaluation (same Itanium ABI as the baseline g++).',
    technique='compile-fail witnesses (static_assert/offsetof/decltype TUs per configuration) + bit-provenance analysis of accessor kernels')
 NOT_APPLICABLE.pop('C16', None)
+
+CHECKS['C17'] = dict(level='proof',
+   text='Every swizzle name (2/3/4 letters over xyzw/rgba/stpq, source lengths 2-4; 1443 names per element type) in operator form (incl. the SSE2/AVX2 shuffle specialisations on aligned vec4), '
+        'member-function form and the gtx/vec_swizzle free functions is proved to return exactly input lane index(name[j]) in output lane j; writable swizzles change exactly the named lanes; '
+        'every vec constructor argument composition (scalars / vec1 / vec2-4 in argument order, mixed element types and qualifiers, truncation, broadcast), matrix element-type and column '
+        'conversions and the quaternion constructors/wxyz factory in both memory orders place static_cast(source lane) in the named lane. All are bit-provenance identities, valid for every value.',
+   note='Constructor compositions for which no constructor is declared are skipped (not a violation); a declared overload that does not instantiate is a violation. Trusted: clang lowering of '
+        '_mm_shuffle_ps/_mm_shuffle_epi32/_mm_permute to shufflevector.',
+   technique='bit-provenance analysis of instantiated LLVM IR (concat/slice/shuffle normal forms) + compile-fail existence witnesses')
+NOT_APPLICABLE.pop('C17', None)
